@@ -134,6 +134,17 @@ func kindPolicy(kind string) *seccomp.Policy {
 		return mk("seccomp")
 	case "invalid":
 		return mk("no_such_syscall")
+	case "invalid-arg6":
+		return &seccomp.Policy{DefaultAction: seccomp.ActionAllow, Syscalls: []seccomp.SyscallGroup{{Action: seccomp.ActionErrno, NamesWithCondtions: []seccomp.NameWithConditions{{Name: "getppid", Conditions: seccomp.ArgumentConditions{{Argument: 6, Operation: seccomp.Equal, Value: 1}}}}}}}
+	case "invalid-emptyconds":
+		return &seccomp.Policy{DefaultAction: seccomp.ActionAllow, Syscalls: []seccomp.SyscallGroup{{Action: seccomp.ActionErrno, NamesWithCondtions: []seccomp.NameWithConditions{{Name: "getppid", Conditions: seccomp.ArgumentConditions{}}}}}}
+	case "huge":
+		// ~3.7k instructions, allows everything the probes and the runtime need (errno only for getsid with odd arguments)
+		g := seccomp.SyscallGroup{Action: seccomp.ActionErrno}
+		for i := 0; i < 930; i++ {
+			g.NamesWithCondtions = append(g.NamesWithCondtions, seccomp.NameWithConditions{Name: "getsid", Conditions: seccomp.ArgumentConditions{{Argument: 0, Operation: seccomp.Equal, Value: uint64(i) + 1<<40}}})
+		}
+		return &seccomp.Policy{DefaultAction: seccomp.ActionAllow, Syscalls: []seccomp.SyscallGroup{g}}
 	case "oversize":
 		g := seccomp.SyscallGroup{Action: seccomp.ActionErrno}
 		for i := 0; i < 1100; i++ {
